@@ -21,8 +21,9 @@ type c13Run struct {
 	tag    string
 	order  string // VERIF_ORDER ("" = hook-free)
 	engine string
-	skip   bool // skipGenerateDateComment
-	procs  int  // GOMAXPROCS for the child (0 = inherit)
+	skip   bool   // skipGenerateDateComment
+	procs  int    // GOMAXPROCS for the child (0 = inherit)
+	perms  string // outputFilePerms ("" = as the project says)
 	exit   int
 	spec   []byte
 	routes []byte
@@ -146,6 +147,9 @@ func c13(c *orch.Ctx) (*report.Result, error) {
 			cfg.SpecOut = "./out-" + run.tag + "/openapi.json"
 			cfg.RoutesOut = "./out-" + run.tag + "/routes/gleece.routes.go"
 			cfg.AuthPkg = p.ModPath + "/auth/" + run.engine
+			if run.perms != "" {
+				cfg.Perms = run.perms
+			}
 			cfgName := "cfg-" + run.tag + ".json"
 			_ = os.WriteFile(filepath.Join(dir, cfgName), []byte(cfg.JSON()), 0o644)
 			tracePath := filepath.Join(c.Work, "trace-"+p.Name+"-"+run.tag+".jsonl")
@@ -212,6 +216,19 @@ func c13(c *orch.Ctx) (*report.Result, error) {
 			runs = append(runs, &c13Run{tag: "eng-" + e, order: "canon", engine: e, skip: true})
 		}
 		runs = append(runs, &c13Run{tag: "dated", order: "canon", engine: "gin", skip: false})
+		// the same generation into a USED output directory: an equivalent but re-indented spec and a longer
+		// routes file are already there (outputFilePerms set): the bytes must not depend on the leftovers
+		{
+			var doc any
+			if json.Unmarshal(base.spec, &doc) == nil {
+				if re, err := json.MarshalIndent(doc, "", "\t"); err == nil {
+					_ = os.MkdirAll(filepath.Join(dir, "out-dirty", "routes"), 0o755)
+					_ = os.WriteFile(filepath.Join(dir, "out-dirty", "openapi.json"), append(re, '\n'), 0o644)
+					_ = os.WriteFile(filepath.Join(dir, "out-dirty", "routes", "gleece.routes.go"), append(append([]byte{}, base.routes...), []byte("\n// leftover of an earlier, longer generation\n"+strings.Repeat("// x\n", 4000))...), 0o644)
+					runs = append(runs, &c13Run{tag: "dirty", order: "canon", engine: "gin", skip: true, perms: "0644"})
+				}
+			}
+		}
 		orch.ParallelMap(len(runs), c.Parallel, func(i int) { exec(runs[i]) })
 		totalRuns += len(runs)
 		specVariants, routeVariants := map[string]bool{report.Hash(base.spec): true}, map[string]bool{report.Hash(base.routes): true}
@@ -279,7 +296,13 @@ func c13(c *orch.Ctx) (*report.Result, error) {
 			prev.SpecOut, prev.RoutesOut = "./out-warmprev/openapi.json", "./out-warmprev/routes/gleece.routes.go"
 			prevMutate := func(doc map[string]any) {}
 			variant := "other-engine-first"
-			if warmIdx%3 == 2 {
+			seq := "cfg-warmprev.json,cfg-warm.json"
+			if warmIdx%4 == 3 && len(p.Config.Globs) > 1 {
+				// the SAME config path both times; its first content only globs a part of the sources
+				variant = "same-config-path-other-globs-first"
+				prev.Globs = p.Config.Globs[:1]
+				seq = "gleece.run.json<-cfg-warmprev.json,gleece.run.json<-cfg-warm.json"
+			} else if warmIdx%3 == 2 {
 				variant = "template-override-first"
 				_ = os.WriteFile(filepath.Join(dir, "ovr-response-headers.hbs"), []byte("\t// verif override marker (must not outlive the generation that configured it)\n"), 0o644)
 				prevMutate = func(doc map[string]any) {
@@ -304,7 +327,7 @@ func c13(c *orch.Ctx) (*report.Result, error) {
 			_ = os.WriteFile(filepath.Join(dir, "cfg-warm.json"), []byte(wc.JSON()), 0o644)
 			env := append(append([]string{}, c.GoEnv...), "VERIF_ORDER=canon")
 			stepsOut := filepath.Join(c.Work, "genseq-"+p.Name+".json")
-			pr := orch.Run(dir, env, 300, filepath.Join(c.Work, "logs-genseq-"+p.Name), inprocBin, "genseq", "-dir", dir, "-config", "cfg-warmprev.json,cfg-warm.json", "-out", stepsOut)
+			pr := orch.Run(dir, env, 300, filepath.Join(c.Work, "logs-genseq-"+p.Name), inprocBin, "genseq", "-dir", dir, "-config", seq, "-out", stepsOut)
 			wspec, _ := os.ReadFile(filepath.Join(dir, "out-warm", "openapi.json"))
 			wroutes, _ := os.ReadFile(filepath.Join(dir, "out-warm", "routes", "gleece.routes.go"))
 			totalRuns += 2
@@ -339,7 +362,7 @@ func c13(c *orch.Ctx) (*report.Result, error) {
 	for s, m := range distinctOrders {
 		orderCounts[s] = len(m)
 	}
-	res.Rule = fmt.Sprintf("%d multi-controller / multi-file / multi-package 'fullspec' projects (alternating 3.0.0/3.1.0); per accepted project: a canonical-order reference run, then for each hook-H1 site (source-files, loaded-packages, find-by-kind) every permutation when the site holds <=4 elements, otherwise %d seeded shuffles + the reversal, 6 joint shuffles of all three sites, %d hook-free runs in fresh processes (Go's own map randomisation; GOMAXPROCS 1/2/3 on every other one), four canonical-order runs under GOMAXPROCS 1/2/5/64 (parse schedule), the four other engines (spec only), one run with the date comment, and one warm-process run (the same generation as the 2nd invocation inside one process whose 1st invocation used another engine or a template extension); spec and routes bytes compared with the reference. distinct = distinct (site sizes, #controllers, version) tuples", nProj, nSample, nFree)
+	res.Rule = fmt.Sprintf("%d multi-controller / multi-file / multi-package 'fullspec' projects (alternating 3.0.0/3.1.0); per accepted project: a canonical-order reference run, then for each hook-H1 site (source-files, loaded-packages, find-by-kind) every permutation when the site holds <=4 elements, otherwise %d seeded shuffles + the reversal, 6 joint shuffles of all three sites, %d hook-free runs in fresh processes (Go's own map randomisation; GOMAXPROCS 1/2/3 on every other one), four canonical-order runs under GOMAXPROCS 1/2/5/64 (parse schedule), the four other engines (spec only), one run with the date comment, one run into a used output directory (re-indented equivalent spec and a longer routes file already present, outputFilePerms set), and one warm-process run (the same generation as the 2nd invocation inside one process whose 1st invocation used another engine or a template extension); spec and routes bytes compared with the reference. distinct = distinct (site sizes, #controllers, version) tuples", nProj, nSample, nFree)
 	res.Extra("warm_process_runs", warmRuns)
 	res.Extra("cli_runs", totalRuns)
 	res.Extra("distinct_orders_forced_per_site", orderCounts)
